@@ -108,6 +108,9 @@ class Schema:
     def __ne__(self, other: Any) -> bool:
         return not self.__eq__(other)
 
+    def __hash__(self) -> int:
+        return hash((self._name, self._parent))
+
     @ignore_copy
     def __getattr__(self, item: str) -> "Table":
         return Table(item, schema=self)
@@ -233,8 +236,8 @@ class Table(Selectable):
         return not self.__eq__(other)
 
     def __hash__(self) -> int:
-        # only what __eq__ compares (and is hashable): equal tables must hash equally
-        return hash((self._table_name, self.alias))
+        # exactly what __eq__ compares: equal tables hash equally, tables of different schemas differently
+        return hash((self._table_name, self._schema, self.alias))
 
     def select(self, *terms: Sequence[int | float | str | bool | Term | Field]) -> "QueryBuilder":
         """
